@@ -18,6 +18,10 @@ CART = {2: ("xy",), 3: ("xy", "z"), 4: ("xy", "z", "t")}
 EXEMPT = {"scale2D", "scale3D", "transform2D", "transform3D"}
 
 
+class NotRepresentable(Exception):
+    pass
+
+
 def check(fn):
     CHECKS[fn.__name__] = fn
     return fn
@@ -72,14 +76,20 @@ def c01_unary(a):
     """method `m` on a vector stored as `sig` agrees with the same vector stored in Cartesian coordinates"""
     fam, mp = ctx()
     v, ref = vec(a["sig"], a["p"], a.get("fl", "g")), vec(CART[len(a["p"])], a["p"], a.get("fl", "g"))
-    args, kw = scal(mp, a.get("args", [])), {k: mp.mpf(x) for k, x in a.get("kw", {}).items()}
+    args, kw = scal(mp, a.get("args", []) if not isinstance(a.get("args"), str) else []), {k: mp.mpf(x) for k, x in a.get("kw", {}).items()}
+    if isinstance(a.get("args"), str):
+        args = [tdict(mp, int(a["args"][1:]))]
     if a.get("order"):
         args = args + [a["order"]]
 
     def get(x):
         at = getattr(x, a["m"])
         return at(*args, **kw) if callable(at) else at
-    ok, why = same_result(get(v), get(ref))
+    want = get(ref)
+    import vector as _v
+    if a["sig"][-1] == "tau" and isinstance(want, _v.Vector) and hasattr(want, "temporal") and want.t < 0:
+        raise NotRepresentable("exact result has negative time: not representable in tau storage")
+    ok, why = same_result(get(v), want)
     assert ok, f"C01 {a['m']} on {a['sig']} at {a['p']}: {why}"
 
 
@@ -90,7 +100,11 @@ def c01_binary(a):
     v, w = vec(a["s1"], a["p1"]), vec(a["s2"], a["p2"], a.get("fl2", "g"))
     rv, rw = vec(CART[d1], a["p1"]), vec(CART[d2], a["p2"], a.get("fl2", "g"))
     args = scal(mp, a.get("args", []))
-    ok, why = same_result(getattr(v, a["m"])(w, *args), getattr(rv, a["m"])(rw, *args))
+    want = getattr(rv, a["m"])(rw, *args)
+    import vector as _v
+    if a["s1"][-1] == "tau" and isinstance(want, _v.Vector) and hasattr(want, "temporal") and want.t < 0:
+        raise NotRepresentable("exact result has negative time: not representable in tau storage")
+    ok, why = same_result(getattr(v, a["m"])(w, *args), want)
     assert ok, f"C01 {a['m']} on {a['s1']} x {a['s2']} at {a['p1']} {a['p2']}: {why}"
 
 
@@ -118,6 +132,14 @@ BINARY = {2: ["add", "subtract", "dot", "deltaphi", "is_parallel", "is_antiparal
 ORDERS = ["xzx", "xyx", "yxy", "yzy", "zyz", "zxz", "xzy", "xyz", "yxz", "yzx", "zyx", "zxy"]
 
 
+TNAMES = {4: ["xx", "xy", "yx", "yy"], 9: [a + b for a in "xyz" for b in "xyz"], 16: [a + b for a in "xyzt" for b in "xyzt"]}
+
+
+def tdict(mp, n):
+    """asymmetric n-entry transform matrix as the mapping transform2D/3D/4D expect"""
+    return {k: mp.mpf(v) for k, v in zip(TNAMES[n], tmat(n))}
+
+
 def tmat(n):
     return [str(round(0.3 + 0.17 * i * (-1) ** i, 3)) for i in range(n)]
 
@@ -131,9 +153,9 @@ def run(fn, a, out, limit):
         fn(a)
         return True
     except AssertionError as e:
-        if len(out) < limit:
-            out.append({"key": f"{fn.__name__}:{a.get('m', '')}:{','.join(a.get('sig', a.get('s1', [])))}"
-                               + (":" + ",".join(a["s2"]) if "s2" in a else ""),
+        if len(out) < limit or a.get("known"):
+            out.append({"key": a.get("known") or f"{fn.__name__}:{a.get('m', '')}:{','.join(a.get('sig', a.get('s1', [])))}"
+                               + (":" + ",".join(a["s2"]) if "s2" in a and not a.get("known") else ""),
                         "what": str(e)[:300], "code": replay_code(fn.__name__, a)})
         return False
     except Exception as e:  # noqa: BLE001  (singular input for this signature: not a verdict)
@@ -166,11 +188,7 @@ def search_c01(seed, tier, only_modules=None, limit=5):
                         continue        # exact result (negative time) is not representable in tau storage
                     n += 1
                     run(c01_unary, {"m": m, "sig": list(sig), "p": p}, out, limit)
-                for m, args in UNARY_ARGS[dim]:
-                    if args == "M9":
-                        continue
-                    if args == "M16":
-                        continue
+                for m, args in UNARY_ARGS[dim] + ([("transform2D", "M4")] if dim == 2 else []):
                     n += 1
                     run(c01_unary, {"m": m, "sig": list(sig), "p": p, "args": args}, out, limit)
                 if dim >= 3:
@@ -185,19 +203,22 @@ def search_c01(seed, tier, only_modules=None, limit=5):
                         n += 1
                         run(c01_unary, {"m": m, "sig": list(sig), "p": p, "kw": kw}, out, limit)
         if dim == 4:
-            # spacelike (and lightlike-side) vectors with t >= 0: representable in every t-stored system (not with tau >= 0)
+            # spacelike vectors with t >= 0: representable in every 4D system (tau storage encodes them with tau < 0)
             sp = []
             for q in points(3, r, 1)[: (3 if tier == "quick" else 8)]:
                 mag = sum(float(x) ** 2 for x in q) ** 0.5
                 sp.append(q + [repr(mag * r.uniform(0.2, 0.8))])
             for sig in C.SIGS[4]:
-                if sig[-1] != "t":
-                    continue
                 for p in sp:
                     for m in SPACELIKE_UNARY:
+                        if sig[-1] == "tau" and m == "neg4D":
+                            continue
                         n += 1
-                        run(c01_unary, {"m": m, "sig": list(sig), "p": p, "fl": "m" if m in MOM4 else "g"}, out, limit)
-                    for m, args in (("scale", ["-1.3"]), ("rotateY", ["2.9"]), ("rotate_quaternion", ["0.5", "0.1", "-0.7", "0.5"])):
+                        a_ = {"m": m, "sig": list(sig), "p": p, "fl": "m" if m in MOM4 else "g"}
+                        if sig[-1] == "tau" and m == "Mt2":
+                            a_["known"] = "Mt2:spacelike:tau-storage"     # clamped at 0 in tau storage only (known finding)
+                        run(c01_unary, a_, out, limit)
+                    for m, args in (("scale", ["-1.3"] if sig[-1] == "t" else ["1.7"]), ("rotateY", ["2.9"]), ("rotate_quaternion", ["0.5", "0.1", "-0.7", "0.5"])):
                         n += 1
                         run(c01_unary, {"m": m, "sig": list(sig), "p": p, "args": args}, out, limit)
                     for m, kw in BOOSTS[:3]:
@@ -340,6 +361,11 @@ def ref_vector(mp, m, p, args, order=None):
         return [c / n for c in p]
     if m == "to_beta3":
         return [c / p[3] for c in p[:3]]
+    if m in ("transform2D", "transform3D", "transform4D"):
+        k = int(m[9])
+        names = "xyzt"[:k]
+        T = args[0]
+        return [sum(T[names[i] + names[j]] * p[j] for j in range(k)) for i in range(k)] + list(p[k:])
     return None
 
 
@@ -359,7 +385,7 @@ def c02_unary(a):
     fam, mp = ctx()
     v = vec(a["sig"], a["p"], a.get("fl", "g"))
     p = M(mp, a["p"])
-    args = scal(mp, a.get("args", []))
+    args = scal(mp, a.get("args", [])) if not isinstance(a.get("args"), str) else [tdict(mp, int(a["args"][1:]))]
     at = getattr(v, a["m"])
     call_args = args + ([a["order"]] if a.get("order") else [])
     got = at(*call_args) if callable(at) else at
@@ -460,8 +486,8 @@ def search_c02(seed, tier, limit=5):
                     for m in ("Et", "Et2", "Mt", "Mt2"):
                         n += 1
                         run(c02_unary, {"m": m, "sig": list(sig), "p": p, "fl": "m"}, out, limit)
-                for m, args in UNARY_ARGS[dim]:
-                    if isinstance(args, str) or m.startswith("is_") or m == "scale4D":
+                for m, args in UNARY_ARGS[dim] + ([("transform2D", "M4")] if dim == 2 else []):     # transformND on an N-dimensional vector only
+                    if m.startswith("is_") or m == "scale4D":
                         continue
                     n += 1
                     run(c02_unary, {"m": m, "sig": list(sig), "p": p, "args": args}, out, limit)
@@ -548,6 +574,20 @@ def search_c09(seed, tier, limit=5):
                 n += 1
                 run(c09_laws, {"s1": list(s1), "s2": list(s2), "sb": list(sb), "p1": pts[k], "p2": pts[k + 1],
                                "pb": pts[k + 2], "b": [repr(x) for x in b], "beta": repr(beta), "beta2": repr(-0.4)}, out, limit)
+    # spacelike vectors (t >= 0; tau storage encodes them with tau < 0) boosted by timelike boosters: every spelling must agree
+    # with the same boost of the Cartesian copy (skipped when the exact result has negative time and the storage is tau)
+    sp = []
+    for q in points(3, r, 1)[: (3 if tier == "quick" else 8)]:
+        mag = sum(float(x) ** 2 for x in q) ** 0.5
+        sp.append(q + [repr(mag * r.uniform(0.2, 0.8))])
+    for s1 in C.SIG4:
+        for p in sp:
+            s2 = r.choice(C.SIG4)
+            sb = r.choice(C.SIG3)
+            b = [repr(r.uniform(-0.5, 0.5)) for _ in range(3)]
+            for m, s_, p_ in (("boost_p4", s2, pts[0]), ("boost", s2, pts[1]), ("boostCM_of_p4", s2, pts[2]), ("boost_beta3", sb, b), ("boost", sb, b)):
+                n += 1
+                run(c01_binary, {"m": m, "s1": list(s1), "s2": list(s_), "p1": p, "p2": p_}, out, limit)
     return out, n
 
 
